@@ -20,7 +20,7 @@
       keyed by the names that appear in the table.  Every link is checked against the
       table; a goroutine or call that was renamed, moved or removed gives the verdict
       [Broken], which no theorem accepts. *)
-From Coq Require Import String List Bool Arith.
+From Coq Require Import String List Bool Arith NArith.
 From HV Require Import Gen.RecoverTable.
 Import ListNotations.
 Open Scope string_scope.
@@ -96,6 +96,13 @@ Fixpoint defers_before (t : tbl) (f : string) (before : nat) : list dfn :=
   | _ :: r => defers_before r f before
   end.
 
+(* function f registers, at its top level, a deferred function that calls recover() directly *)
+Definition entry_protected_fn (t : tbl) (f : string) : bool :=
+  existsb (fun e => match e with
+                    | Defer _ f' _ top _ direct _ _ => String.eqb f' f && top && direct
+                    | _ => false
+                    end) t.
+
 Definition unresolved_entries (t : tbl) : list entry :=
   filter (fun e => match e with Unresolved _ _ _ => true | _ => false end) t.
 
@@ -108,6 +115,9 @@ Inductive side : Set := Server | Client.
 Inductive fault : Set :=
 (* server side: a request of a healthy client (or of a raw peer) makes ... *)
 | FServicePanic        (* the service function panic (any value) *)
+| FHostilePanic        (* ... with a value whose own Error()/String() method panics (typed nil pointer, method that
+                          panics): formatting the recovered value can raise a second panic.  Server side: the service
+                          function; client side: the function provided through reverse.Provider *)
 | FInvokePluginPanic   (* an invoke plugin (Service.Use, NextInvokeHandler chain) panic *)
 | FIOPluginPanic       (* an IO plugin (Service.Use, NextIOHandler chain) panic *)
 | FMissingPanic        (* the missing-method handler panic *)
@@ -127,11 +137,11 @@ Record cell : Set := { c_tr : transport; c_side : side; c_pool : bool; c_fault :
 Definition transports := [TMock; THttp; TFastHttp; TTcp; TUnix; TWebsocket; TUdp].
 Definition sides := [Server; Client].
 Definition pools := [false; true].
-Definition faults := [FServicePanic; FInvokePluginPanic; FIOPluginPanic; FMissingPanic; FDecodeError;
+Definition faults := [FServicePanic; FHostilePanic; FInvokePluginPanic; FIOPluginPanic; FMissingPanic; FDecodeError;
   FDecodePanic; FFrameShort; FFrameBadCrc; FFrameLength; FOversizeRequest; FOversizeResponse;
   FBadPayload; FProviderPanic].
 
-(* the whole product: 7 transports x 2 sides x pool off/on x 13 fault classes = 364 *)
+(* the whole product: 7 transports x 2 sides x pool off/on x 14 fault classes = 392 *)
 Definition all_cells : list cell :=
   flat_map (fun tr => flat_map (fun sd => flat_map (fun p => map (fun f =>
     {| c_tr := tr; c_side := sd; c_pool := p; c_fault := f |}) faults) pools) sides) transports.
@@ -146,7 +156,7 @@ Definition side_eqb (a b : side) : bool :=
   match a, b with Server, Server | Client, Client => true | _, _ => false end.
 Definition fault_eqb (a b : fault) : bool :=
   match a, b with
-  | FServicePanic, FServicePanic | FInvokePluginPanic, FInvokePluginPanic | FIOPluginPanic, FIOPluginPanic
+  | FServicePanic, FServicePanic | FHostilePanic, FHostilePanic | FInvokePluginPanic, FInvokePluginPanic | FIOPluginPanic, FIOPluginPanic
   | FMissingPanic, FMissingPanic | FDecodeError, FDecodeError | FDecodePanic, FDecodePanic
   | FFrameShort, FFrameShort | FFrameBadCrc, FFrameBadCrc | FFrameLength, FFrameLength
   | FOversizeRequest, FOversizeRequest | FOversizeResponse, FOversizeResponse
@@ -173,7 +183,7 @@ Definition applicable (c : cell) : bool :=
   let tr := c_tr c in
   (if c_pool c then has_pool tr && side_eqb (c_side c) Server else true) &&
   match c_side c, c_fault c with
-  | Server, (FServicePanic | FInvokePluginPanic | FIOPluginPanic | FMissingPanic | FDecodeError | FDecodePanic) => true
+  | Server, (FServicePanic | FHostilePanic | FInvokePluginPanic | FIOPluginPanic | FMissingPanic | FDecodeError | FDecodePanic) => true
   | Server, FFrameShort => framed tr
   | Server, FFrameBadCrc => has_crc tr
   | Server, FFrameLength => has_wire tr           (* http/fasthttp: Content-Length larger than the body sent *)
@@ -185,7 +195,7 @@ Definition applicable (c : cell) : bool :=
   | Client, FFrameLength => has_wire tr
   | Client, FOversizeRequest => transport_eqb tr TUdp
   | Client, FBadPayload => has_wire tr
-  | Client, FProviderPanic => true
+  | Client, (FProviderPanic | FHostilePanic) => true
   | Client, _ => false
   end.
 
@@ -269,6 +279,10 @@ Inductive verdict : Set :=
 | ProcessDies    (* unrecovered panic: the process terminates *)
 | Broken (why : string).   (* the skeleton no longer matches the table *)
 
+(* the property on a verdict *)
+Definition contained (v : verdict) : bool :=
+  match v with CallError | ConnClosed => true | _ => false end.
+
 Inductive behaviour : Set :=
 | Panics (g : gspec)
 | ErrorPath (v : verdict).
@@ -281,7 +295,7 @@ Definition behaviour_of (c : cell) : behaviour :=
   let tr := c_tr c in
   let p := pkg_of tr in
   match c_side c, c_fault c with
-  | Server, FServicePanic => server_panic tr (c_pool c) "ext:reflect.Value.Call"
+  | Server, (FServicePanic | FHostilePanic) => server_panic tr (c_pool c) "ext:reflect.Value.Call"
   | Server, FMissingPanic => server_panic tr (c_pool c) "dyn:core.missingMethod"
   | Server, FInvokePluginPanic => server_panic tr (c_pool c) "dyn:core.NextInvokeHandler"
   | Server, FIOPluginPanic => server_panic tr (c_pool c) "dyn:core.NextIOHandler"
@@ -332,7 +346,7 @@ Definition behaviour_of (c : cell) : behaviour :=
          before anything is queued: the Send goroutine never sees it *)
       ErrorPath CallError
   | Client, FBadPayload => ErrorPath CallError         (* ClientCodec.Decode returns an error to the caller *)
-  | Client, FProviderPanic =>
+  | Client, (FProviderPanic | FHostilePanic) =>
       Panics {| g_root := RGo "plugins/reverse.Provider.dispatch" "plugins/reverse.Provider.dispatch$1";
                 g_chain := [("plugins/reverse.Provider.dispatch$1", "plugins/reverse.Provider.process");
                             ("plugins/reverse.Provider.process", "dyn:core.NextInvokeHandler");
@@ -461,10 +475,57 @@ Definition panic_verdict (t : tbl) (g : gspec) : verdict :=
       end
   end.
 
+(* ---- formatting the recovered value -------------------------------------------------- *)
+(* A recovered panic value becomes the call's error text through PanicError.Error / .String.
+   Formatting calls the value's own Error()/String() method, which may panic in turn.  That is
+   harmless only while PanicError formats through fmt.Sprintf and nothing else: fmt recovers a
+   panic of an Error()/String() method and prints a placeholder ("<nil>" for a nil receiver).
+   (fmt gives up on a SECOND nested panic — a value whose Error() panics with a value whose
+   Error() panics again; net/http's own recover does not survive such a value either; such
+   values are outside this model, see the check's probe.) *)
+Definition callees_of (t : tbl) (f : string) : list string :=
+  flat_map (fun e => match e with Call f' _ c => if String.eqb f' f then [c] else [] | _ => [] end) t.
+
+Definition only_sprintf (t : tbl) (f : string) : bool :=
+  match callees_of t f with
+  | [] => false
+  | cs => forallb (String.eqb "ext:fmt.Sprintf") cs
+  end.
+
+(* the formatting is itself under a recover (a hardened PanicError) or goes through fmt only *)
+Definition format_shielded (t : tbl) : bool :=
+  (entry_protected_fn t "core.PanicError.Error" || only_sprintf t "core.PanicError.Error") &&
+  (entry_protected_fn t "core.PanicError.String" || only_sprintf t "core.PanicError.String").
+
+(* WHERE the formatting runs.  Server: Service.Handle encodes the error (ServiceCodec.Encode
+   calls err.Error()) after the closure that recovered has returned — the table decides whether
+   that call is under a recover of Handle or not.  Provider: Provider.process formats inside
+   its deferred function; a panic there leaves process and continues in its caller. *)
+Definition format_phase (c : cell) : option gspec :=
+  match c_side c, c_fault c with
+  | Server, FHostilePanic =>
+      let '(r, ch, needs) := server_request_goroutine (c_tr c) (c_pool c) in
+      Some {| g_root := r;
+              g_chain := (ch ++ [("core.Service.Handle", "iface:core.ServiceCodec.Encode")])%list;
+              g_site := "iface:core.ServiceCodec.Encode"; g_needs := needs |}
+  | Client, FHostilePanic =>
+      Some {| g_root := RGo "plugins/reverse.Provider.dispatch" "plugins/reverse.Provider.dispatch$1";
+              g_chain := [("plugins/reverse.Provider.dispatch$1", "plugins/reverse.Provider.process")];
+              g_site := "plugins/reverse.Provider.process"; g_needs := [] |}
+  | _, _ => None
+  end.
+
 Definition verdict_of (t : tbl) (c : cell) : verdict :=
   match behaviour_of c with
   | ErrorPath v => v
-  | Panics g => panic_verdict t g
+  | Panics g =>
+      let v := panic_verdict t g in
+      match format_phase c with
+      | Some g2 =>
+          (* the first panic is stopped; formatting its value raises a second one unless shielded *)
+          if contained v && negb (format_shielded t) then panic_verdict t g2 else v
+      | None => v
+      end
   end.
 
 (* the frame that stops the panic, for reporting *)
@@ -489,8 +550,6 @@ Definition stack_names (t : tbl) (c : cell) : list string :=
 (* ------------------------------------------------------------------------------------ *)
 (* 6. the property on verdicts                                                            *)
 
-Definition contained (v : verdict) : bool :=
-  match v with CallError | ConnClosed => true | _ => false end.
 
 (* who is affected by a fault with verdict v *)
 Inductive party : Set :=
@@ -597,6 +656,32 @@ Definition on_unprotected_goroutine (c : cell) : bool :=
   | ErrorPath _ => false
   end.
 
+(* ---- tearing a client connection down ------------------------------------------------ *)
+(* conn.Exit(onExit, err): onExit unregisters the connection from Transport.conns (and cancels
+   its context), Close(err) runs the OnClose hook, closes the socket and fails the pending
+   calls.  Calls issued while the connection is being torn down reach a fresh connection only
+   if it was unregistered FIRST; otherwise they are queued on the dying one and fail with the
+   other call's error. *)
+Definition teardown_unregisters_first (t : tbl) (pkg : string) : bool :=
+  match call_seq t (pkg ++ ".conn.Exit") "param:onExit", call_seq t (pkg ++ ".conn.Exit") (pkg ++ ".conn.Close") with
+  | Some a, Some b => Nat.ltb a b
+  | _, _ => false
+  end.
+
+Definition mux_packages : list string := ["socket"; "udp"; "websocket"].
+
+(* does a call issued during the teardown of the cell's client connection succeed *)
+Definition during_teardown_ok (t : tbl) (c : cell) : bool :=
+  if has_pool (c_tr c) then teardown_unregisters_first t (pkg_of (c_tr c)) else true.
+
+(* ---- size limits --------------------------------------------------------------------- *)
+(* one UDP datagram over IPv4 carries 65507 bytes; the hprose header takes 8 *)
+Definition udp_datagram_capacity : N := 65507.
+Definition udp_header_length : N := 8.
+Definition udp_max_body : N := udp_datagram_capacity - udp_header_length.
+(* a message of n encoded bytes is refused exactly when it exceeds the limit *)
+Definition refused (limit n : N) : bool := N.ltb limit n.
+
 (* ------------------------------------------------------------------------------------ *)
 (* 8. names for the driver                                                                *)
 
@@ -606,7 +691,7 @@ Definition transport_name (tr : transport) : string :=
 Definition side_name (s : side) : string := match s with Server => "server" | Client => "client" end.
 Definition fault_name (f : fault) : string :=
   match f with
-  | FServicePanic => "service-panic" | FInvokePluginPanic => "invoke-plugin-panic"
+  | FServicePanic => "service-panic" | FHostilePanic => "hostile-panic-value" | FInvokePluginPanic => "invoke-plugin-panic"
   | FIOPluginPanic => "io-plugin-panic" | FMissingPanic => "missing-method-panic"
   | FDecodeError => "decode-error" | FDecodePanic => "decode-panic"
   | FFrameShort => "frame-short" | FFrameBadCrc => "frame-bad-crc" | FFrameLength => "frame-length"
